@@ -263,7 +263,8 @@ def _framing(m: RefMsg, upgrades):
             either = either or "transfer-coding with parameters"
         n_chunked = sum(1 for e in elems if is_chunked(e))
         if not elems:
-            raise _Either("empty Transfer-Encoding")
+            # present, and not "a single final chunked": the body's length cannot be determined (RFC 9112 6.3)
+            raise _Reject("empty Transfer-Encoding")
         if n_chunked > 1:
             if either:
                 raise _Either(either)
